@@ -191,6 +191,9 @@ class SexpRenderer:
     def __init__(self, prog: Program):
         self.prog = prog
         self.cur_sub = None
+        # Var objects are shared between a program and its clones (shrink candidates): the keys of THIS program are
+        # re-established before every rendering, otherwise a rejected candidate leaves its numbering behind
+        prog.assign_keys()
 
     def prim(self, op, imms, args):
         return atoms(["prim", op, atoms([str(i) for i in imms])] + [self.e(a) for a in args])
